@@ -1673,7 +1673,7 @@ func TryToInsertOptionalChain(test Expr, expr Expr) bool {
 			e.OptionalChain = OptionalChainStart
 			return true
 		}
-		if TryToInsertOptionalChain(test, e.Target) {
+		if !endsParenthesizedChain(e.OptionalChain, e.Target) && TryToInsertOptionalChain(test, e.Target) {
 			if e.OptionalChain == OptionalChainNone {
 				e.OptionalChain = OptionalChainContinue
 			}
@@ -1685,7 +1685,7 @@ func TryToInsertOptionalChain(test Expr, expr Expr) bool {
 			e.OptionalChain = OptionalChainStart
 			return true
 		}
-		if TryToInsertOptionalChain(test, e.Target) {
+		if !endsParenthesizedChain(e.OptionalChain, e.Target) && TryToInsertOptionalChain(test, e.Target) {
 			if e.OptionalChain == OptionalChainNone {
 				e.OptionalChain = OptionalChainContinue
 			}
@@ -1697,7 +1697,7 @@ func TryToInsertOptionalChain(test Expr, expr Expr) bool {
 			e.OptionalChain = OptionalChainStart
 			return true
 		}
-		if TryToInsertOptionalChain(test, e.Target) {
+		if !endsParenthesizedChain(e.OptionalChain, e.Target) && TryToInsertOptionalChain(test, e.Target) {
 			if e.OptionalChain == OptionalChainNone {
 				e.OptionalChain = OptionalChainContinue
 			}
@@ -1706,6 +1706,13 @@ func TryToInsertOptionalChain(test Expr, expr Expr) bool {
 	}
 
 	return false
+}
+
+// In "(a.b?.c).d" the ".d" is not a link of the optional chain inside the
+// parentheses, so it must not be turned into one: "a?.b?.c.d" would skip
+// ".d" when "a.b" is null instead of throwing a TypeError.
+func endsParenthesizedChain(chain OptionalChain, target Expr) bool {
+	return chain == OptionalChainNone && IsOptionalChain(target)
 }
 
 func joinStrings(a []uint16, b []uint16) []uint16 {
